@@ -370,7 +370,7 @@ func runReplayTest(repoDir, workDir, src string) (string, bool) {
 var replaySpecs = map[string]replaySpec{}
 
 func init() {
-	for _, s := range []replaySpec{replayProtocolVersion, replayCheckProtoVersion} {
+	for _, s := range []replaySpec{replayProtocolVersion, replayCheckProtoVersion, replaySecureCheck, replayParseJSON, replayFlattenKV} {
 		replaySpecs[s.Func] = s
 	}
 }
@@ -601,6 +601,227 @@ func TestGpverifyReplay(t *testing.T) {
 			if bad := gpvReplayOne(f, sv); bad != "" {
 				t.Fatalf("REPLAY-VIOLATION source=scope-3-enumeration %s", bad)
 			}
+		}
+	}
+}
+`,
+}
+
+// ---------------------------------------------------------------------------------------
+// C13: (*SecureConfig).Check. The hash is uninterpreted in the VCs, so the model only fixes the
+// shape (lengths, nil-ness); the test derives concrete checksums from the real digest.
+
+var replaySecureCheck = replaySpec{
+	Func: "(*SecureConfig).Check",
+	Obs: []obsDecl{
+		{"cklen", `len(s.Checksum)`},
+		{"hashnil", `s.Hash == nil`},
+	},
+	Template: `package plugin
+
+import (
+	"crypto/sha256"
+	"fmt"
+	"os"
+	"path/filepath"
+	"testing"
+)
+
+// generated by gpverify for a failed obligation of (*SecureConfig).Check: the shape read off the
+// solver's model first, then checksums derived from the real digest (equal, prefix, extended, one
+// bit flipped, empty) over a few file contents
+func gpvReplayOne(t *testing.T, content, checksum []byte, withHash bool) string {
+	p := filepath.Join(t.TempDir(), "bin")
+	if err := os.WriteFile(p, content, 0o600); err != nil {
+		t.Fatal(err)
+	}
+	sc := &SecureConfig{Checksum: checksum}
+	if withHash {
+		sc.Hash = sha256.New()
+	}
+	ok, err := sc.Check(p)
+	sum := sha256.Sum256(content)
+	want := withHash && len(checksum) > 0 && string(sum[:]) == string(checksum)
+	if ok != want {
+		return fmt.Sprintf("file of %d bytes, checksum of %d bytes (digest has %d), hash set=%v: Check returned %v (err %v), the property demands %v", len(content), len(checksum), len(sum), withHash, ok, err, want)
+	}
+	if err != nil && ok {
+		return fmt.Sprintf("Check returned true together with error %v", err)
+	}
+	return ""
+}
+
+func TestGpverifyReplay(t *testing.T) {
+	content := []byte("plugin binary")
+	sum := sha256.Sum256(content)
+	n := {{int "cklen" 32}}
+	if n < 0 || n > 1<<16 {
+		n = 32
+	}
+	ck := make([]byte, n)
+	copy(ck, sum[:])
+	if bad := gpvReplayOne(t, content, ck, {{not (bool "hashnil" false)}}); bad != "" {
+		t.Fatalf("REPLAY-VIOLATION source=solver-model %s", bad)
+	}
+	for _, c := range [][]byte{[]byte("plugin binary"), {}, []byte("x")} {
+		s := sha256.Sum256(c)
+		flipped := append([]byte{}, s[:]...)
+		flipped[len(flipped)-1] ^= 1
+		for _, ck := range [][]byte{s[:], s[:16], append(append([]byte{}, s[:]...), 0), append(append([]byte{}, s[:]...), s[:]...), flipped, {}, nil} {
+			for _, h := range []bool{true, false} {
+				if bad := gpvReplayOne(t, c, ck, h); bad != "" {
+					t.Fatalf("REPLAY-VIOLATION source=scope-enumeration %s", bad)
+				}
+			}
+		}
+	}
+}
+`,
+}
+
+// ---------------------------------------------------------------------------------------
+// C10: parseJSON and flattenKVPairs. JSON text is an uninterpreted string in the VCs; the test
+// enumerates small documents over the hclog keys with values of every JSON type.
+
+var replayParseJSON = replaySpec{
+	Func: "parseJSON",
+	Obs:  []obsDecl{{"n", `len(input)`}},
+	Template: `package plugin
+
+import (
+	"encoding/json"
+	"fmt"
+	"sort"
+	"strings"
+	"testing"
+)
+
+// generated by gpverify for a failed obligation of parseJSON: small JSON documents over the hclog
+// keys (@message, @level, @timestamp) with values of every JSON type plus ordinary keys
+func gpvReplayOne(doc string) (bad string) {
+	defer func() {
+		if r := recover(); r != nil {
+			bad = fmt.Sprintf("input %s: parseJSON panicked: %v", doc, r)
+		}
+	}()
+	entry, err := parseJSON([]byte(doc))
+	var raw map[string]interface{}
+	if json.Unmarshal([]byte(doc), &raw) != nil {
+		if err == nil {
+			return fmt.Sprintf("input %s is not a JSON object but parseJSON returned no error", doc)
+		}
+		return ""
+	}
+	if err != nil {
+		return "" // an error is an allowed answer (the caller falls back to the raw line)
+	}
+	want := map[string]interface{}{}
+	for k, v := range raw {
+		want[k] = v
+	}
+	if s, ok := raw["@message"].(string); ok {
+		if entry.Message != s {
+			return fmt.Sprintf("input %s: message %q", doc, entry.Message)
+		}
+		delete(want, "@message")
+	}
+	if s, ok := raw["@level"].(string); ok {
+		if entry.Level != s {
+			return fmt.Sprintf("input %s: level %q", doc, entry.Level)
+		}
+		delete(want, "@level")
+	}
+	if _, ok := raw["@timestamp"].(string); ok {
+		delete(want, "@timestamp")
+	}
+	got := map[string]int{}
+	for _, kv := range entry.KVPairs {
+		got[kv.Key]++
+		if fmt.Sprint(kv.Value) != fmt.Sprint(raw[kv.Key]) {
+			return fmt.Sprintf("input %s: key %q has value %v", doc, kv.Key, kv.Value)
+		}
+	}
+	var missing []string
+	for k := range want {
+		if got[k] != 1 {
+			missing = append(missing, k)
+		}
+	}
+	sort.Strings(missing)
+	if len(missing) > 0 || len(got) != len(want) {
+		return fmt.Sprintf("input %s: remaining keys %v are not enumerated exactly once (got %v)", doc, missing, got)
+	}
+	return ""
+}
+
+func TestGpverifyReplay(t *testing.T) {
+	vals := []string{` + "`\"text\"`" + `, "1", "true", "null", "[1]", ` + "`{\"a\":1}`" + `, ` + "`\"2006-01-02T15:04:05.000000Z\"`" + `}
+	keys := []string{"@message", "@level", "@timestamp", "foo"}
+	for _, k1 := range keys {
+		for _, v1 := range vals {
+			docs := []string{"{" + strconvQuote(k1) + ":" + v1 + "}"}
+			for _, k2 := range keys {
+				if k2 != k1 {
+					docs = append(docs, "{"+strconvQuote(k1)+":"+v1+","+strconvQuote(k2)+":\"x\"}")
+				}
+			}
+			for _, d := range docs {
+				if bad := gpvReplayOne(d); bad != "" {
+					t.Fatalf("REPLAY-VIOLATION source=scope-enumeration %s", bad)
+				}
+			}
+		}
+	}
+	for _, d := range []string{"", "{", "[]", "null", "{}", strings.Repeat(" ", {{int "n" 0}} % 7)} {
+		if bad := gpvReplayOne(d); bad != "" {
+			t.Fatalf("REPLAY-VIOLATION source=scope-enumeration %s", bad)
+		}
+	}
+}
+
+func strconvQuote(s string) string { return "\"" + s + "\"" }
+`,
+}
+
+var replayFlattenKV = replaySpec{
+	Func: "flattenKVPairs",
+	Obs:  []obsDecl{{"n", `len(kvs)`}},
+	Template: `package plugin
+
+import (
+	"fmt"
+	"testing"
+)
+
+// generated by gpverify for a failed obligation of flattenKVPairs: lists of the length read off the
+// solver's model and of lengths 0..4
+func gpvReplayOne(n int) string {
+	var kvs []*logEntryKV
+	for i := 0; i < n; i++ {
+		kvs = append(kvs, &logEntryKV{Key: fmt.Sprintf("k%d", i), Value: i * 7})
+	}
+	out := flattenKVPairs(kvs)
+	if len(out) != 2*n {
+		return fmt.Sprintf("%d pairs flattened to %d elements", n, len(out))
+	}
+	for i := 0; i < n; i++ {
+		if out[2*i] != interface{}(kvs[i].Key) || out[2*i+1] != kvs[i].Value {
+			return fmt.Sprintf("%d pairs: element %d/%d is (%v,%v), the property demands (%v,%v)", n, 2*i, 2*i+1, out[2*i], out[2*i+1], kvs[i].Key, kvs[i].Value)
+		}
+	}
+	return ""
+}
+
+func TestGpverifyReplay(t *testing.T) {
+	n := {{int "n" 1}}
+	if n >= 0 && n < 1000 {
+		if bad := gpvReplayOne(n); bad != "" {
+			t.Fatalf("REPLAY-VIOLATION source=solver-model %s", bad)
+		}
+	}
+	for k := 0; k <= 4; k++ {
+		if bad := gpvReplayOne(k); bad != "" {
+			t.Fatalf("REPLAY-VIOLATION source=scope-enumeration %s", bad)
 		}
 	}
 }
